@@ -341,7 +341,43 @@ def run_sub_alignment(case):
     return {"steps": [observe(new, case)]}
 
 
+def run_sample_draw(case):
+    """sample() through its RANDOM-draw path (the library's own randint / permutation of numpy.random, seeded), on both
+    classes built from the same rows: once with the defaults, once with recording wrappers around the same generators"""
+    out = {}
+    m, n, wr, seed = case["motif"], case["n"], bool(case["with_replacement"]), case["seed"]
+    for cls, arr in (("old", False), ("arr", True)):
+        try:
+            aln = build(case, arr=arr)
+            numpy.random.seed(seed)
+            r1 = aln.sample(n=n, with_replacement=wr, motif_length=m)
+            d1 = r1.to_dict()
+            rec = []
+
+            def randint(lo, hi, k):
+                r = numpy.random.randint(lo, hi, k)
+                rec.append(["randint", int(lo), int(hi), int(k), [int(x) for x in r]])
+                return r
+
+            def permutation(k):
+                r = numpy.random.permutation(k)
+                rec.append(["permutation", int(k), [int(x) for x in r]])
+                return r
+
+            numpy.random.seed(seed)
+            r2 = aln.sample(n=n, with_replacement=wr, motif_length=m, randint=randint, permutation=permutation)
+            d2 = r2.to_dict()
+            out[cls] = {"rows": [[id_of(k), d1[k]] for k in r1.names], "len": int(len(r1)), "rec": rec,
+                        "default_equals_wrapped": d1 == d2 and list(r1.names) == list(r2.names),
+                        "ro": readonly_mismatch(r1, case)}
+        except Exception as e:  # noqa: BLE001
+            out[cls] = {"exc": exc_code(e), "cls": type(e).__name__, "msg": str(e)[:200]}
+    return out
+
+
 def run_case(case):
+    if case.get("sample_draw"):
+        return run_sample_draw(case)
     if case.get("sub_alignment"):
         return run_sub_alignment(case)
     if case.get("probe"):
